@@ -263,6 +263,9 @@ func (fg *FnGen) applyContract(con *Contract, name string, names []string, args 
 		}
 	}
 	for _, e := range con.Ensures {
+		if mentionsGhost(e.Src, con) {
+			continue // ghost variables of the callee are not visible to callers
+		}
 		t := fg.evalBool(e.Expr, mkEnv(fg.cur, pre))
 		fg.assume(t)
 	}
@@ -643,4 +646,13 @@ func staticPrefix(addr ssa.Value) (kind, prefix string, T types.Type, ok bool) {
 		return "", "", nil, false
 	}
 	return "H:", typeKey(T), T, true
+}
+
+func mentionsGhost(src string, con *Contract) bool {
+	for _, gv := range con.Ghosts {
+		if strings.Contains(src, gv.Name) {
+			return true
+		}
+	}
+	return false
 }
